@@ -112,6 +112,9 @@ def stretch(img, arg0=None, arg1=None, dtype=np.uint8):
         return img
     img *= float(max - min)/ptp
     if min: img += min
+    # rounding in the two steps above can overshoot the requested range by one ulp
+    lo, hi = (min, max) if min <= max else (max, min)
+    np.clip(img, lo, hi, out=img)
     return img.astype(dtype, copy=False)
 
 def as_rgb(r, g, b):
